@@ -71,7 +71,7 @@ def _cnf_job(job):
     def call(w, it, f):
         wk = w.new_walker(cls, w.env)
         return it.call(it.getattr(wk, "convert"), [f])
-    res = proc.run_proc(shape, call, post=_cnf_post(shape), services="full")
+    res = proc.run_proc(shape, call, post=_cnf_post(shape), services="full", world_cls=proc.TypedWorld)
     return [(cls.split(".")[-1], repr(shape), r.kind, str(r.detail), r.result) for r in res]
 
 
@@ -142,7 +142,7 @@ def _ack_job(job):
                                            "the result is satisfied with %s but no interpretation of %s satisfies the input "
                                            "with these values" % (dict(zip(plain, key)), funs), rs)
         return proc.ProcResult(shape, "valid", "%d interpretations" % n, rs)
-    res = proc.run_proc(shape, call, post=post, services="full")
+    res = proc.run_proc(shape, call, post=post, services="full", world_cls=proc.TypedWorld)
     tag = repr(shape) if earlier is None else "%s on an instance that served %s before" % (repr(shape), repr(earlier))
     if chained:
         tag = "(result for %s) & %s on a second instance" % (repr(earlier), repr(shape))
